@@ -30,6 +30,14 @@ def run(rep, props, replay=None):
     runq = C.CoqRun("C02", IMPORTS, shard=12)
     todo = []
     defect = {}
+    def _ev(d, meth):
+        f = UFPCA(n_components=2, method=meth)
+        f.fit(d, method_smoothing=None)
+        return np.concatenate([np.asarray(f.eigenvalues, float).ravel(), np.abs(np.asarray(f.eigenfunctions.values, float)).ravel(),
+                               np.asarray(f.covariance.values, float).ravel()])
+    fd.dtype_monitor(rep, rng, {"UFPCA(covariance) eigenvalues / |eigenfunctions| / covariance": lambda d: _ev(d, "covariance"),
+                                "UFPCA(inner-product) eigenvalues / |eigenfunctions| / covariance": lambda d: _ev(d, "inner-product")},
+                     "UFPCA")
     kinds = ["uniform", "uniform-dyadic", "nonuniform", "doy", "shifted"]
     n_cases = 10 if quick else 60
     for i in range(n_cases):
@@ -150,11 +158,22 @@ def run(rep, props, replay=None):
             top = float(np.max(np.linalg.eigvalsh((Gref + Gref.T) / 2)))
             if top <= 1e-9 * float(np.max(np.abs(Gref))):
                 continue            # the noise correction leaves no positive eigenvalue: nothing is stated
-            # (a zero eigenvalue AMONG positive ones is F1's matter, C01)
+            # Which k of the eigenvalues a k-component fit keeps is F1's matter (C01: solver order, a zero one may come
+            # first).  What is judged here: when the model's Gram matrix has at least two clearly positive eigenvalues, a
+            # fit asking for all but one component cannot come back without any positive eigenvalue.
             if not np.all(np.isfinite(ls)) or ls.max() <= 0:
-                rep.violation(f"gram: no positive Gram eigenvalue / non-finite eigenfunctions for non-constant data "
-                              f"(n_components={ncomp}, grid={kind}, data scale {float(np.max(np.abs(X))):.3g})",
-                              {"grid": kind, "method": "inner-product", "n_components": ncomp, "x": C.hexf(x), "X": C.hexf(X)})
+                evs = np.linalg.eigvalsh((Gref + Gref.T) / 2)
+                n_pos = int(np.sum(evs > 1e-6 * top))
+                if ncomp == 1 and n_pos >= 2 and n >= 3:
+                    with warnings.catch_warnings():
+                        warnings.simplefilter("ignore")
+                        g_all = UFPCA(n_components=n - 1, method="inner-product")
+                        g_all.fit(d, method_smoothing=None)
+                    la = np.asarray(g_all.eigenvalues, float)
+                    if not np.any(la[np.isfinite(la)] > 0):
+                        rep.violation(f"gram: no positive Gram eigenvalue among the {n - 1} requested although the Gram matrix has "
+                                      f"{n_pos} (grid={kind}, data scale {float(np.max(np.abs(X))):.3g})",
+                                      {"grid": kind, "method": "inner-product", "n_components": n - 1, "x": C.hexf(x), "X": C.hexf(X)})
                 continue
             if np.any(ls <= 1e-9 * ls.max()):
                 continue
